@@ -17,7 +17,7 @@ from .sbytes import SBytes, byte_of, from_bytes, to_bytes
 from .sstr import SStr, Fmt, fmt_value, str_of, hex_of_bytes, sstr_concat
 
 _LITERAL_CACHE = {}
-MAX_PATHS = 20000
+MAX_PATHS = 4000
 MAX_LOOP = 600
 
 
@@ -203,6 +203,10 @@ class Exec:
             return True
         if z3.is_false(cond):
             return False
+        if getattr(self, 'deadline', None) is not None:
+            import time as _t
+            if _t.time() > self.deadline:
+                raise Unsupported('exploration budget exceeded (path explosion)')
         if self.cursor < len(self.decisions):
             d = self.decisions[self.cursor]
         else:
@@ -1358,13 +1362,19 @@ def ast_load(t):
 # ----------------------------------------------------------------------------
 # exploration driver
 # ----------------------------------------------------------------------------
-def explore(repo, run, assumptions=(), contracts=None, inline=(), hooks=None, max_paths=MAX_PATHS, branch_timeout_ms=2000):
+def explore(repo, run, assumptions=(), contracts=None, inline=(), hooks=None, max_paths=MAX_PATHS, branch_timeout_ms=2000, budget_s=None):
     """run(ex) -> value ; returns list[PathResult].  `run` must rebuild all state itself."""
+    import os
+    import time as _t
     work = [[]]
     results = []
+    t_end = _t.time() + (budget_s if budget_s is not None else float(os.environ.get('PYVC_EXPLORE_BUDGET_S', '90')))
     while work:
+        if _t.time() > t_end:
+            raise Unsupported('exploration budget exceeded (path explosion)')
         dec = work.pop()
         ex = Exec(repo, dec, assumptions, contracts, inline, hooks, branch_timeout_ms)
+        ex.deadline = t_end
         V._CTX[0] = ex
         try:
             try:
